@@ -12,14 +12,15 @@ def var_name(idx, d, g):
     return f"x{idx}_{d}_{g}"
 
 
-def sym_dp(idx, D, G, outlier=None, name=None):
+def sym_dp(idx, D, G, outlier=None, name=None, fixed=None):
     """DataPoint whose likelihood grid is D x G fresh positive reals (stored as their logarithms).
     outlier = None (no outlier modelling) or (p_out V, p_in V) with p_out + p_in = 1 assumed by the caller."""
     from phyclone.data.base import DataPoint
     a = _np.empty((D, G), dtype=object)
     for d in range(D):
         for g in range(G):
-            a[d, g] = Log(V.var(var_name(idx, d, g)))
+            nm = var_name(idx, d, g)
+            a[d, g] = Log(V(Fraction(fixed[nm]))) if fixed and nm in fixed else Log(V.var(nm))
     if outlier is None:
         return DataPoint(idx, a, name=name)
     po, pi = outlier
